@@ -145,7 +145,8 @@ class SPIDeviceInterface(Elaboratable):
                 with m.If(bit_count + 1 == self.word_size):
                     m.d.sync += [
                         self.word_accepted .eq(1),
-                        current_tx         .eq(self.word_out)
+                        current_tx         .eq(self.word_out),
+                        bit_count          .eq(0)
                     ]
 
 
